@@ -153,7 +153,7 @@ def judge(ctx, case):
     for t in item_trees(items):
         for o in ops_of(t):
             classes.append("op:" + o)
-    ctx.count(formula, nontrivial(items), classes)
+    ctx.count(formula, nontrivial(items), classes, distinct=bool(case.get("enumerated")))
     full = dict(case, formula=formula)
     try:
         with core.Guard():
@@ -234,14 +234,22 @@ KNOWN_CLASSES = {"selfproduct": _kf_selfproduct}
 
 
 # ---- domains -----------------------------------------------------------------------------------------
+def _atoms(t):
+    if t[0] == "var":
+        return {t[1]}
+    return _atoms(t[1]) | (_atoms(t[2]) if t[0] != "**" else set())
+
+
 def _exh_worker(ctx, arg):
     name, atoms, n, shard, nshards = arg
     for i, t in enumerate(trees(n, atoms)):
         if i % nshards != shard:
             continue
-        judge(ctx, {"items": [["+", t]], "style": "full"})
-        if i % 7 == 0:
-            judge(ctx, {"items": [["+", t]], "style": "min"})
+        if name.startswith("C") and _atoms(t) <= set(ATOMS_B):
+            continue  # already enumerated with the other atom pool
+        judge(ctx, {"items": [["+", t]], "style": "full", "enumerated": True})
+        if i % 7 == 0 and n > 0:
+            judge(ctx, {"items": [["+", t]], "style": "min", "enumerated": True})
 
 
 LITS = [("lit", "0"), ("lit", "1"), ("lit", "-1")]
